@@ -133,12 +133,9 @@ func runC10(c *eng.Ctx, thorough bool) {
 	// ---------- C10.2 Seal drops key material
 	if f := c.Fn("barrier.(*AESGCMBarrier).Seal"); f != nil {
 		c.Clause("R2", "C10.2")
-		var rets []ssa.Instruction
-		for _, r := range eng.Returns(f) {
-			if r.Block().Comment != "recover" {
-				rets = append(rets, r)
-			}
-		}
+		// the returns that report "sealed" (nil error); a refusal that returns an error leaves the barrier as it was
+		rets := eng.SuccessReturns(f, 0)
+		c.Floor(f, "returns of Seal that report success", len(rets), 1)
 		var zero, nilKR, sealed, cache []ssa.Instruction
 		for _, cl := range eng.Calls(f, `barrier\.\(\*Keyring\)\.Zeroize$`) {
 			if eng.Expr(cl.Common().Args[1]) == "true" {
